@@ -3,8 +3,8 @@ import json
 from vlib import core
 from checks import codec_common as cc
 
-THEOREMS = ['json_safe', 'no_custom_json']
-MODULES = ['LLRP.Model.Codec', 'LLRP.Model.Schema', 'LLRP.Model.Bytes', 'LLRP.Model.Sexp']
+THEOREMS = ['decode_encode', 'reencode', 'schema_wf', 'decode_encode_gen', 'decode_of_fuel', 'json_safe', 'no_custom_json']
+MODULES = ['LLRP.Model.Codec', 'LLRP.Model.Schema', 'LLRP.Model.Bytes', 'LLRP.Model.Sexp', 'LLRP.Model.SchemaWF', 'LLRP.Model.FieldsWF']
 RULE = ('per type (169): type-directed random values — every optional slot present/absent, repeatables 0-3, each member of every choice group, '
         'numbers at 0/1/max/max-1/sign boundary/random, arrays/strings of length 0,1,2,3,7,8,9,… (thorough: up to 1000), bit arrays of 0,1,7,8,9,15,16,17,… bits; '
         'for each value: Go MarshalBinary = model encode; Go UnmarshalBinary = model decode; the property monitor rt (decode∘encode = id, re-encode = bytes, '
